@@ -525,7 +525,7 @@ def chk_output(case, col, tally=None):
     intval = is_intlike(stored) or (isinstance(stored, float) and stored.is_integer())
     if legit and intval and stored == exact and (raw_amount is None or raw_amount == exact):
         return
-    if kind == 'fractional' and spec['form'] in ('str', 'Value') and api != 'add_output' and is_intlike(stored) \
+    if kind == 'fractional' and spec['form'] in ('str', 'Value') and is_intlike(stored) \
             and exact.__floor__() <= stored <= exact.__ceil__() and stored >= 0 and (raw_amount is None or raw_amount == stored):
         col.probe('output_fractional_text_rounded')      # a textual amount finer than the unit, rounded to a neighbouring integer
         return
